@@ -512,38 +512,42 @@ func (s Subtitles) WriteToWebVTT(o io.Writer) (err error) {
 
 	sort.Strings(k)
 	for _, id := range k {
+		var regionStyle = s.Regions[id].InlineStyle
+		if regionStyle == nil {
+			regionStyle = &StyleAttributes{}
+		}
 		c = append(c, []byte("Region: id="+s.Regions[id].ID)...)
-		if s.Regions[id].InlineStyle.WebVTTLines != 0 {
+		if regionStyle.WebVTTLines != 0 {
 			c = append(c, bytesSpace...)
-			c = append(c, []byte("lines="+strconv.Itoa(s.Regions[id].InlineStyle.WebVTTLines))...)
+			c = append(c, []byte("lines="+strconv.Itoa(regionStyle.WebVTTLines))...)
 		} else if s.Regions[id].Style != nil && s.Regions[id].Style.InlineStyle != nil && s.Regions[id].Style.InlineStyle.WebVTTLines != 0 {
 			c = append(c, bytesSpace...)
 			c = append(c, []byte("lines="+strconv.Itoa(s.Regions[id].Style.InlineStyle.WebVTTLines))...)
 		}
-		if s.Regions[id].InlineStyle.WebVTTRegionAnchor != "" {
+		if regionStyle.WebVTTRegionAnchor != "" {
 			c = append(c, bytesSpace...)
-			c = append(c, []byte("regionanchor="+s.Regions[id].InlineStyle.WebVTTRegionAnchor)...)
+			c = append(c, []byte("regionanchor="+regionStyle.WebVTTRegionAnchor)...)
 		} else if s.Regions[id].Style != nil && s.Regions[id].Style.InlineStyle != nil && s.Regions[id].Style.InlineStyle.WebVTTRegionAnchor != "" {
 			c = append(c, bytesSpace...)
 			c = append(c, []byte("regionanchor="+s.Regions[id].Style.InlineStyle.WebVTTRegionAnchor)...)
 		}
-		if s.Regions[id].InlineStyle.WebVTTScroll != "" {
+		if regionStyle.WebVTTScroll != "" {
 			c = append(c, bytesSpace...)
-			c = append(c, []byte("scroll="+s.Regions[id].InlineStyle.WebVTTScroll)...)
+			c = append(c, []byte("scroll="+regionStyle.WebVTTScroll)...)
 		} else if s.Regions[id].Style != nil && s.Regions[id].Style.InlineStyle != nil && s.Regions[id].Style.InlineStyle.WebVTTScroll != "" {
 			c = append(c, bytesSpace...)
 			c = append(c, []byte("scroll="+s.Regions[id].Style.InlineStyle.WebVTTScroll)...)
 		}
-		if s.Regions[id].InlineStyle.WebVTTViewportAnchor != "" {
+		if regionStyle.WebVTTViewportAnchor != "" {
 			c = append(c, bytesSpace...)
-			c = append(c, []byte("viewportanchor="+s.Regions[id].InlineStyle.WebVTTViewportAnchor)...)
+			c = append(c, []byte("viewportanchor="+regionStyle.WebVTTViewportAnchor)...)
 		} else if s.Regions[id].Style != nil && s.Regions[id].Style.InlineStyle != nil && s.Regions[id].Style.InlineStyle.WebVTTViewportAnchor != "" {
 			c = append(c, bytesSpace...)
 			c = append(c, []byte("viewportanchor="+s.Regions[id].Style.InlineStyle.WebVTTViewportAnchor)...)
 		}
-		if s.Regions[id].InlineStyle.WebVTTWidth != "" {
+		if regionStyle.WebVTTWidth != "" {
 			c = append(c, bytesSpace...)
-			c = append(c, []byte("width="+s.Regions[id].InlineStyle.WebVTTWidth)...)
+			c = append(c, []byte("width="+regionStyle.WebVTTWidth)...)
 		} else if s.Regions[id].Style != nil && s.Regions[id].Style.InlineStyle != nil && s.Regions[id].Style.InlineStyle.WebVTTWidth != "" {
 			c = append(c, bytesSpace...)
 			c = append(c, []byte("width="+s.Regions[id].Style.InlineStyle.WebVTTWidth)...)
